@@ -421,13 +421,13 @@ theorem Src.read_wf (s : Src) (space : Nat) (hs : 1 ≤ space) (hw : WfSched s.s
     | failForever => exact absurd hst (by simp [WfStep])
 
 /-- the reader `r` is at stream position `pos` with BOM state `bom`, and its window followed by the
-undelivered bytes is `d`; it is either a slice reader, or its buffer is larger than everything still to come. -/
+undelivered bytes is `d`; a slice reader (`cap = 0`) has nothing undelivered. -/
 structure Rel (r : Reader) (pos : Nat) (bom : Bom) (d : Bytes) : Prop where
   pos : r.position = pos
   bom : r.bom = bom
   data : r.win ++ r.src.rest = d
   wf : WfSched r.src.sched
-  cap : (r.cap = 0 ∧ r.src.rest = []) ∨ r.win.length + r.src.rest.length < r.cap
+  capz : r.cap = 0 → r.src.rest = []
 
 theorem Rel.advance {r : Reader} {pos : Nat} {bom : Bom} {d : Bytes} (h : Rel r pos bom d) (k : Nat) (hk : k ≤ r.win.length) :
     ∃ r', TextReader.advance r k = some r' ∧ Rel r' (pos + k) bom (d.drop k) ∧ r'.win = r.win.drop k ∧
@@ -438,75 +438,69 @@ theorem Rel.advance {r : Reader} {pos : Nat} {bom : Bom} {d : Bytes} (h : Rel r 
   · exact h.bom
   · rw [← h.data, List.drop_append_of_le_length hk]
   · exact h.wf
-  · rcases h.cap with hc | hc
-    · left; exact hc
-    · right; simp only [List.length_drop]; omega
+  · exact h.capz
 
 theorem Rel.setBom {r : Reader} {pos : Nat} {bom : Bom} {d : Bytes} (h : Rel r pos bom d) (b : Bom) :
     Rel { r with bom := b } pos b d :=
-  ⟨h.pos, rfl, h.data, h.wf, h.cap⟩
+  ⟨h.pos, rfl, h.data, h.wf, h.capz⟩
 
-theorem Rel.fill_end {r : Reader} {pos : Nat} {bom : Bom} {d : Bytes} (h : Rel r pos bom d) (he : r.src.rest = []) :
-    ∃ r', fillBuf r = (r', .ok 0) ∧ Rel r' pos bom d ∧ r'.win = r.win ∧ r'.src.rest = [] := by
-  unfold fillBuf
+theorem Rel.win_le {r : Reader} {pos : Nat} {bom : Bom} {d : Bytes} (h : Rel r pos bom d) : r.win.length ≤ d.length := by
+  rw [← h.data]; simp
+
+/-- the three outcomes of `fill_buf` under a fault-free schedule: `BufferFull` (exactly when the window already fills a
+non-empty buffer), end of input, or at least one more byte. -/
+theorem Rel.fill {r : Reader} {pos : Nat} {bom : Bom} {d : Bytes} (h : Rel r pos bom d) :
+    (fillBuf r = (r, .full) ∧ r.cap ≠ 0 ∧ r.cap ≤ r.win.length) ∨
+    (r.src.rest = [] ∧ ∃ r', fillBuf r = (r', .ok 0) ∧ Rel r' pos bom d ∧ r'.win = r.win ∧ r'.src.rest = [] ∧ r'.cap = r.cap) ∨
+    (r.src.rest ≠ [] ∧ ∃ r' n, fillBuf r = (r', .ok (n + 1)) ∧ Rel r' pos bom d ∧ n + 1 ≤ r.src.rest.length ∧
+      r'.win = r.win ++ r.src.rest.take (n + 1) ∧ r'.src.rest = r.src.rest.drop (n + 1) ∧ r'.cap = r.cap) := by
   by_cases hc : r.cap = 0
-  · simp only [hc, if_true]
-    exact ⟨r, rfl, h, rfl, he⟩
-  · have hcap : r.win.length + r.src.rest.length < r.cap := by
-      rcases h.cap with hh | hh
-      · exact absurd hh.1 hc
-      · exact hh
-    have hnf : ¬ r.win.length ≥ r.cap := by omega
-    simp only [hc, if_false, hnf]
-    obtain ⟨n, _, _, hn, h2, h3, h4⟩ := Src.read_wf r.src (r.cap - r.win.length) (by omega) h.wf
-    have hn0 : n = 0 := by simp [he] at hn; exact hn
-    subst hn0
-    generalize hread : r.src.read (r.cap - r.win.length) = res at h2 h3 h4
-    obtain ⟨src', ob⟩ := res
-    simp only at h2 h3 h4
-    subst h2
-    simp only [List.take_zero, List.length_nil, List.append_nil]
-    refine ⟨_, rfl, ?_, rfl, ?_⟩
-    · constructor
-      · have := h.pos; simp only [Reader.position] at this ⊢; omega
-      · exact h.bom
-      · simp only [h3, he, List.drop_nil]; rw [← h.data, he]
-      · exact h4
-      · right; simp only [h3, he, List.drop_nil, List.length_nil]; simp only [he, List.length_nil] at hcap; omega
-    · simp [h3, he]
-
-theorem Rel.fill_more {r : Reader} {pos : Nat} {bom : Bom} {d : Bytes} (h : Rel r pos bom d) (he : r.src.rest ≠ []) :
-    ∃ r' n, fillBuf r = (r', .ok (n + 1)) ∧ Rel r' pos bom d ∧ n + 1 ≤ r.src.rest.length ∧
-      r'.win = r.win ++ r.src.rest.take (n + 1) ∧ r'.src.rest = r.src.rest.drop (n + 1) := by
-  unfold fillBuf
-  have hcap : r.win.length + r.src.rest.length < r.cap := by
-    rcases h.cap with hh | hh
-    · exact absurd hh.2 he
-    · exact hh
-  have hc : ¬ r.cap = 0 := by omega
+  · right; left
+    have he := h.capz hc
+    exact ⟨he, r, by simp [fillBuf, hc], h, rfl, he, rfl⟩
+  by_cases hfull : r.cap ≤ r.win.length
+  · left
+    exact ⟨by simp [fillBuf, hc]; omega, hc, hfull⟩
   have hnf : ¬ r.win.length ≥ r.cap := by omega
-  simp only [hc, if_false, hnf]
   obtain ⟨n, h1, h1', hn, h2, h3, h4⟩ := Src.read_wf r.src (r.cap - r.win.length) (by omega) h.wf
-  have hn1 := h1 he
-  obtain ⟨m, rfl⟩ : ∃ m, n = m + 1 := ⟨n - 1, by omega⟩
   generalize hread : r.src.read (r.cap - r.win.length) = res at h2 h3 h4
   obtain ⟨src', ob⟩ := res
   simp only at h2 h3 h4
   subst h2
-  have hl : (List.take (m + 1) r.src.rest).length = m + 1 := by simp; omega
-  refine ⟨{ r with prior := r.prior + r.consumed, consumed := 0, src := src', win := r.win ++ List.take (m + 1) r.src.rest }, m,
-    by simp only [hl], ?_, hn, rfl, h3⟩
-  constructor
-  · have := h.pos; simp only [Reader.position] at this ⊢; omega
-  · exact h.bom
-  · simp only [h3, List.append_assoc, List.take_append_drop]; exact h.data
-  · exact h4
-  · right; simp only [h3, List.length_append, hl, List.length_drop]; omega
+  by_cases he : r.src.rest = []
+  · right; left
+    have hn0 : n = 0 := by simp [he] at hn; exact hn
+    subst hn0
+    refine ⟨he, { r with prior := r.prior + r.consumed, consumed := 0, src := src', win := r.win ++ [] }, ?_, ?_, by simp, by simp [h3, he], rfl⟩
+    · simp [fillBuf, hc, hnf, hread]
+    · constructor
+      · have := h.pos; simp only [Reader.position] at this ⊢; omega
+      · exact h.bom
+      · simp only [h3, he, List.drop_nil, List.append_nil]; rw [← h.data, he]; simp
+      · exact h4
+      · intro hc0; exact absurd hc0 hc
+  · right; right
+    have hn1 := h1 he
+    obtain ⟨m, rfl⟩ : ∃ m, n = m + 1 := ⟨n - 1, by omega⟩
+    have hl : (List.take (m + 1) r.src.rest).length = m + 1 := by simp; omega
+    refine ⟨he, { r with prior := r.prior + r.consumed, consumed := 0, src := src', win := r.win ++ List.take (m + 1) r.src.rest }, m,
+      ?_, ?_, hn, rfl, h3, rfl⟩
+    · simp [fillBuf, hc, hnf, hread, hl]
+    · constructor
+      · have := h.pos; simp only [Reader.position] at this ⊢; omega
+      · exact h.bom
+      · simp only [h3, List.append_assoc, List.take_append_drop]; exact h.data
+      · exact h4
+      · intro hc0; exact absurd hc0 hc
 
-end Jomini.TextReader
+/-- the call ended in `BufferFull`: the window already filled the (non-empty) buffer -/
+def FullAlt {α : Type} (cap : Nat) (d : Bytes) (res : Res α) : Prop :=
+  ∃ r', res = .err r' .full ∧ cap ≠ 0 ∧ cap ≤ r'.win.length ∧ r'.win.length ≤ d.length
 
-namespace Jomini.TextReader
-open Jomini Jomini.TextReader.Spec
+theorem FullAlt.mono {α : Type} {cap : Nat} {d d' : Bytes} {res : Res α} (h : FullAlt cap d' res) (hl : d'.length ≤ d.length) :
+    FullAlt cap d res := by
+  obtain ⟨r', h1, h2, h3, h4⟩ := h
+  exact ⟨r', h1, h2, h3, by omega⟩
 
 /-! ### continuing inside a quoted scalar across refills -/
 
@@ -515,42 +509,51 @@ theorem run_quote (n : Nat) : ∀ (r : Reader) (pos : Nat) (bom : Bom) (d junk a
     quoteEnd a 0 = none →
     (∀ x, quoteEnd (a ++ x) 0 = quoteEnd ((a ++ x).drop off) off) →
     2 * r.src.rest.length + 2 ≤ fuel →
+    FullAlt r.cap d (run fuel (.refill .quote a.length off) r) ∨
     match quoteEnd (a ++ r.src.rest) 0 with
     | some m => ∃ r', run fuel (.refill .quote a.length off) r = .ok r' (some (.quoted ((a ++ r.src.rest).take m))) ∧
-        Rel r' (pos + junk.length + (m + 1)) bom ((a ++ r.src.rest).drop (m + 1))
+        Rel r' (pos + junk.length + (m + 1)) bom ((a ++ r.src.rest).drop (m + 1)) ∧ r'.cap = r.cap
     | none => ∃ r', run fuel (.refill .quote a.length off) r = .err r' .eof ∧ r'.position = pos + junk.length := by
   induction n with
   | zero =>
     intro r pos bom d junk a off fuel hn hrel hwin hoff hnone hres hfuel
     have he : r.src.rest = [] := List.eq_nil_of_length_eq_zero (by omega)
     obtain ⟨f, rfl⟩ : ∃ f, fuel = f + 1 := ⟨fuel - 1, by omega⟩
-    obtain ⟨r0, hadv, hrel0, hwin0, hsrc0, _⟩ := hrel.advance junk.length (by simp [hwin])
+    obtain ⟨r0, hadv, hrel0, hwin0, hsrc0, hcap0⟩ := hrel.advance junk.length (by simp [hwin])
     have hrest0 : r0.src.rest = [] := by rw [hsrc0]; exact he
-    obtain ⟨r1, hfill, hrel1, hwin1, _⟩ := hrel0.fill_end hrest0
-    simp only [he, List.append_nil, hnone]
-    refine ⟨r1, ?_, hrel1.pos⟩
-    rw [run]
-    have e : r.win.length - a.length = junk.length := by simp [hwin]
-    simp only [e, hadv]
-    have : ¬ a.length > r.win.length := by simp [hwin]
-    simp only [this, if_false, hfill]
-  | succ n ih =>
-    intro r pos bom d junk a off fuel hn hrel hwin hoff hnone hres hfuel
-    obtain ⟨f, rfl⟩ : ∃ f, fuel = f + 1 := ⟨fuel - 1, by omega⟩
-    obtain ⟨r0, hadv, hrel0, hwin0, hsrc0, _⟩ := hrel.advance junk.length (by simp [hwin])
     have e : r.win.length - a.length = junk.length := by simp [hwin]
     have hgt : ¬ a.length > r.win.length := by simp [hwin]
-    have hwin0' : r0.win = a := by rw [hwin0, hwin]; simp
-    by_cases he : r.src.rest = []
-    · have hrest0 : r0.src.rest = [] := by rw [hsrc0]; exact he
-      obtain ⟨r1, hfill, hrel1, hwin1, _⟩ := hrel0.fill_end hrest0
+    have hw0 : r0.win.length ≤ d.length := by have := hrel.win_le; rw [hwin0]; simp; omega
+    rcases hrel0.fill with ⟨hfill, hc1, hc2⟩ | ⟨_, r1, hfill, hrel1, hwin1, _, _⟩ | ⟨hne, _⟩
+    · left
+      refine ⟨r0, ?_, by rw [← hcap0]; exact hc1, by rw [← hcap0]; exact hc2, hw0⟩
+      rw [run]; simp only [e, hadv, hgt, if_false, hfill]
+    · right
       simp only [he, List.append_nil, hnone]
       refine ⟨r1, ?_, hrel1.pos⟩
       rw [run]
       simp only [e, hadv, hgt, if_false, hfill]
-    · have hrest0 : r0.src.rest ≠ [] := by rw [hsrc0]; exact he
-      obtain ⟨r1, k, hfill, hrel1, hk, hwin1, hrest1⟩ := hrel0.fill_more hrest0
-      rw [hsrc0] at hk hwin1 hrest1
+    · exact absurd hrest0 hne
+  | succ n ih =>
+    intro r pos bom d junk a off fuel hn hrel hwin hoff hnone hres hfuel
+    obtain ⟨f, rfl⟩ : ∃ f, fuel = f + 1 := ⟨fuel - 1, by omega⟩
+    obtain ⟨r0, hadv, hrel0, hwin0, hsrc0, hcap0⟩ := hrel.advance junk.length (by simp [hwin])
+    have e : r.win.length - a.length = junk.length := by simp [hwin]
+    have hgt : ¬ a.length > r.win.length := by simp [hwin]
+    have hwin0' : r0.win = a := by rw [hwin0, hwin]; simp
+    have hw0 : r0.win.length ≤ d.length := by have := hrel.win_le; rw [hwin0]; simp; omega
+    have hdata : d = junk ++ a ++ r.src.rest := by rw [← hrel.data, hwin]
+    rcases hrel0.fill with ⟨hfill, hc1, hc2⟩ | ⟨he0, r1, hfill, hrel1, hwin1, _, _⟩ | ⟨hne0, r1, k, hfill, hrel1, hk, hwin1, hrest1, hcap1⟩
+    · left
+      refine ⟨r0, ?_, by rw [← hcap0]; exact hc1, by rw [← hcap0]; exact hc2, hw0⟩
+      rw [run]; simp only [e, hadv, hgt, if_false, hfill]
+    · right
+      have he : r.src.rest = [] := by rw [← hsrc0]; exact he0
+      simp only [he, List.append_nil, hnone]
+      refine ⟨r1, ?_, hrel1.pos⟩
+      rw [run]
+      simp only [e, hadv, hgt, if_false, hfill]
+    · rw [hsrc0] at hk hwin1 hrest1
       rw [hwin0'] at hwin1
       -- the data seen so far and the rest
       generalize hnew : r.src.rest.take (k + 1) = new at hwin1
@@ -570,23 +573,21 @@ theorem run_quote (n : Nat) : ∀ (r : Reader) (pos : Nat) (bom : Bom) (d junk a
       rw [hrun, hwin1]
       have hoff' : off ≤ (a ++ new).length := by simp; omega
       have hlenL : (a ++ new).length = off + ((a ++ new).drop off).length := by simp; omega
+      have hdd : (junk ++ a ++ r.src.rest).drop junk.length = a ++ r.src.rest := by simp
+      rw [hdata, hdd] at hrel1
       cases hq : quoteRescan (a ++ new).length ((a ++ new).drop off) off with
       | closed m =>
+        right
         have e1 : quoteEnd (a ++ new) 0 = some m := by rw [hres new]; exact quoteRescan_closed hq
         have hb := quoteEnd_bounds e1
         have e2 : quoteEnd (a ++ r.src.rest) 0 = some m := by rw [hd1]; exact quoteEnd_append _ e1
         simp only [e2]
-        obtain ⟨r2, hadv2, hrel2, _, _, _⟩ := hrel1.advance (m + 1) (by rw [hwin1]; simp at hb ⊢; omega)
-        refine ⟨r2, ?_, ?_⟩
-        · simp only [hadv2]
-          have ht : ((a ++ new) ++ r1.src.rest).take m = (a ++ new).take m :=
-            List.take_append_of_le_length (by simp at hb ⊢; omega)
-          rw [hd1, ht]
-        · have hdd : (junk ++ a ++ r.src.rest).drop junk.length = a ++ r.src.rest := by simp
-          have hdata : d = junk ++ a ++ r.src.rest := by rw [← hrel.data, hwin]
-          rw [hdata, hdd] at hrel2
-          have : pos + junk.length + (m + 1) = pos + junk.length + (m + 1) := rfl
-          exact hrel2
+        obtain ⟨r2, hadv2, hrel2, _, _, hcap2⟩ := hrel1.advance (m + 1) (by rw [hwin1]; simp at hb ⊢; omega)
+        refine ⟨r2, ?_, hrel2, by rw [hcap2, hcap1, hcap0]⟩
+        simp only [hadv2]
+        have ht : ((a ++ new) ++ r1.src.rest).take m = (a ++ new).take m :=
+          List.take_append_of_le_length (by simp at hb ⊢; omega)
+        rw [hd1, ht]
       | more c o =>
         obtain ⟨h1, h2, h3, h4, h5⟩ := quoteRescan_more hlenL hq
         subst h2
@@ -604,7 +605,19 @@ theorem run_quote (n : Nat) : ∀ (r : Reader) (pos : Nat) (bom : Bom) (d junk a
         have hl1 : r1.src.rest.length + (k + 1) = r.src.rest.length := by rw [hrest1]; simp; omega
         have := ih r1 (pos + junk.length) bom _ [] (a ++ new) o f hlen1 hrel1 hdata1 h4 hnone' hres' (by omega)
         rw [← hd1] at this
-        simpa using this
+        rcases this with hfa | hok
+        · left
+          rw [hcap1, hcap0] at hfa
+          exact hfa.mono (by rw [hdata]; simp)
+        · right
+          cases hqe : quoteEnd (a ++ r.src.rest) 0 with
+          | none =>
+            rw [hqe] at hok; simp only at hok ⊢
+            simpa using hok
+          | some m =>
+            rw [hqe] at hok; simp only at hok ⊢
+            obtain ⟨r', h1', h2', h3'⟩ := hok
+            exact ⟨r', h1', by simpa using h2', by rw [h3', hcap1, hcap0]⟩
 
 end Jomini.TextReader
 
@@ -627,51 +640,33 @@ theorem run_unq (n : Nat) : ∀ (r : Reader) (pos : Nat) (bom : Bom) (d junk : B
     r.src.rest.length ≤ n → Rel r pos bom d → r.win = junk ++ c :: body →
     findIdx isBoundary body 0 = none →
     2 * r.src.rest.length + 2 ≤ fuel →
+    FullAlt r.cap d (run fuel (.refill .unquoted (body.length + 1) (body.length + 1)) r) ∨
     match findIdx isBoundary (body ++ r.src.rest) 0 with
     | some k => ∃ r', run fuel (.refill .unquoted (body.length + 1) (body.length + 1)) r =
           .ok r' (some (.unquoted ((c :: (body ++ r.src.rest)).take (1 + k)))) ∧
-        Rel r' (pos + junk.length + (1 + k)) bom ((c :: (body ++ r.src.rest)).drop (1 + k))
+        Rel r' (pos + junk.length + (1 + k)) bom ((c :: (body ++ r.src.rest)).drop (1 + k)) ∧ r'.cap = r.cap
     | none => ∃ r', run fuel (.refill .unquoted (body.length + 1) (body.length + 1)) r =
           .ok r' (some (.unquoted (c :: (body ++ r.src.rest)))) ∧
-        Rel r' (pos + junk.length + (body.length + 1 + r.src.rest.length)) bom [] := by
+        Rel r' (pos + junk.length + (body.length + 1 + r.src.rest.length)) bom [] ∧ r'.cap = r.cap := by
   induction n with
   | zero =>
     intro r pos bom d junk c body fuel hn hrel hwin hnone hfuel
     have he : r.src.rest = [] := List.eq_nil_of_length_eq_zero (by omega)
     obtain ⟨f, rfl⟩ : ∃ f, fuel = f + 1 := ⟨fuel - 1, by omega⟩
-    obtain ⟨r0, hadv, hrel0, hwin0, hsrc0, _⟩ := hrel.advance junk.length (by simp [hwin])
+    obtain ⟨r0, hadv, hrel0, hwin0, hsrc0, hcap0⟩ := hrel.advance junk.length (by simp [hwin])
     have hrest0 : r0.src.rest = [] := by rw [hsrc0]; exact he
-    obtain ⟨r1, hfill, hrel1, hwin1, hrest1⟩ := hrel0.fill_end hrest0
-    have hwin1' : r1.win = c :: body := by rw [hwin1, hwin0, hwin]; simp
-    obtain ⟨r2, hadv2, hrel2, _, _, _⟩ := hrel1.advance r1.win.length (Nat.le_refl _)
-    simp only [he, List.append_nil, hnone]
-    refine ⟨r2, ?_, ?_⟩
-    · rw [run]
-      have e : r.win.length - (body.length + 1) = junk.length := by simp [hwin]
-      have hgt : ¬ body.length + 1 > r.win.length := by simp [hwin]
-      simp only [e, hadv, hgt, if_false, hfill]
-      have : ¬ r1.win.length < body.length + 1 := by simp [hwin1']
-      simp only [this, if_false, hadv2]
-      simp [hwin1']
-    · have hd : (List.drop junk.length d).drop r1.win.length = [] := by
-        rw [← hrel1.data, hrest1]; simp
-      rw [hd] at hrel2
-      have : pos + junk.length + r1.win.length = pos + junk.length + (body.length + 1 + 0) := by simp [hwin1']
-      simpa [this] using hrel2
-  | succ n ih =>
-    intro r pos bom d junk c body fuel hn hrel hwin hnone hfuel
-    obtain ⟨f, rfl⟩ : ∃ f, fuel = f + 1 := ⟨fuel - 1, by omega⟩
-    obtain ⟨r0, hadv, hrel0, hwin0, hsrc0, _⟩ := hrel.advance junk.length (by simp [hwin])
     have e : r.win.length - (body.length + 1) = junk.length := by simp [hwin]
     have hgt : ¬ body.length + 1 > r.win.length := by simp [hwin]
-    have hwin0' : r0.win = c :: body := by rw [hwin0, hwin]; simp
-    by_cases he : r.src.rest = []
-    · have hrest0 : r0.src.rest = [] := by rw [hsrc0]; exact he
-      obtain ⟨r1, hfill, hrel1, hwin1, hrest1⟩ := hrel0.fill_end hrest0
-      have hwin1' : r1.win = c :: body := by rw [hwin1, hwin0']
-      obtain ⟨r2, hadv2, hrel2, _, _, _⟩ := hrel1.advance r1.win.length (Nat.le_refl _)
+    have hw0 : r0.win.length ≤ d.length := by have := hrel.win_le; rw [hwin0]; simp; omega
+    rcases hrel0.fill with ⟨hfill, hc1, hc2⟩ | ⟨_, r1, hfill, hrel1, hwin1, hrest1, hcap1⟩ | ⟨hne, _⟩
+    · left
+      refine ⟨r0, ?_, by rw [← hcap0]; exact hc1, by rw [← hcap0]; exact hc2, hw0⟩
+      rw [run]; simp only [e, hadv, hgt, if_false, hfill]
+    · right
+      have hwin1' : r1.win = c :: body := by rw [hwin1, hwin0, hwin]; simp
+      obtain ⟨r2, hadv2, hrel2, _, _, hcap2⟩ := hrel1.advance r1.win.length (Nat.le_refl _)
       simp only [he, List.append_nil, hnone]
-      refine ⟨r2, ?_, ?_⟩
+      refine ⟨r2, ?_, ?_, by rw [hcap2, hcap1, hcap0]⟩
       · rw [run]
         simp only [e, hadv, hgt, if_false, hfill]
         have : ¬ r1.win.length < body.length + 1 := by simp [hwin1']
@@ -682,9 +677,37 @@ theorem run_unq (n : Nat) : ∀ (r : Reader) (pos : Nat) (bom : Bom) (d junk : B
         rw [hd] at hrel2
         have : pos + junk.length + r1.win.length = pos + junk.length + (body.length + 1 + 0) := by simp [hwin1']
         simpa [this] using hrel2
-    · have hrest0 : r0.src.rest ≠ [] := by rw [hsrc0]; exact he
-      obtain ⟨r1, k, hfill, hrel1, hk, hwin1, hrest1⟩ := hrel0.fill_more hrest0
-      rw [hsrc0] at hk hwin1 hrest1
+    · exact absurd hrest0 hne
+  | succ n ih =>
+    intro r pos bom d junk c body fuel hn hrel hwin hnone hfuel
+    obtain ⟨f, rfl⟩ : ∃ f, fuel = f + 1 := ⟨fuel - 1, by omega⟩
+    obtain ⟨r0, hadv, hrel0, hwin0, hsrc0, hcap0⟩ := hrel.advance junk.length (by simp [hwin])
+    have e : r.win.length - (body.length + 1) = junk.length := by simp [hwin]
+    have hgt : ¬ body.length + 1 > r.win.length := by simp [hwin]
+    have hwin0' : r0.win = c :: body := by rw [hwin0, hwin]; simp
+    have hw0 : r0.win.length ≤ d.length := by have := hrel.win_le; rw [hwin0]; simp; omega
+    have hdata : d = junk ++ c :: (body ++ r.src.rest) := by rw [← hrel.data, hwin]; simp
+    rcases hrel0.fill with ⟨hfill, hc1, hc2⟩ | ⟨he0, r1, hfill, hrel1, hwin1, hrest1, hcap1⟩ | ⟨hne0, r1, k, hfill, hrel1, hk, hwin1, hrest1, hcap1⟩
+    · left
+      refine ⟨r0, ?_, by rw [← hcap0]; exact hc1, by rw [← hcap0]; exact hc2, hw0⟩
+      rw [run]; simp only [e, hadv, hgt, if_false, hfill]
+    · right
+      have he : r.src.rest = [] := by rw [← hsrc0]; exact he0
+      have hwin1' : r1.win = c :: body := by rw [hwin1, hwin0']
+      obtain ⟨r2, hadv2, hrel2, _, _, hcap2⟩ := hrel1.advance r1.win.length (Nat.le_refl _)
+      simp only [he, List.append_nil, hnone]
+      refine ⟨r2, ?_, ?_, by rw [hcap2, hcap1, hcap0]⟩
+      · rw [run]
+        simp only [e, hadv, hgt, if_false, hfill]
+        have : ¬ r1.win.length < body.length + 1 := by simp [hwin1']
+        simp only [this, if_false, hadv2]
+        simp [hwin1']
+      · have hd : (List.drop junk.length d).drop r1.win.length = [] := by
+          rw [← hrel1.data, hrest1]; simp
+        rw [hd] at hrel2
+        have : pos + junk.length + r1.win.length = pos + junk.length + (body.length + 1 + 0) := by simp [hwin1']
+        simpa [this] using hrel2
+    · rw [hsrc0] at hk hwin1 hrest1
       rw [hwin0'] at hwin1
       generalize hnew : r.src.rest.take (k + 1) = new at hwin1
       have hsplit : r.src.rest = new ++ r1.src.rest := by rw [hrest1, ← hnew]; simp
@@ -708,17 +731,17 @@ theorem run_unq (n : Nat) : ∀ (r : Reader) (pos : Nat) (bom : Bom) (d junk : B
         rw [findIdx_append_none new hnone]; simp
       have hsh : findIdx isBoundary new (body.length + 1) = (findIdx isBoundary new body.length).map (· + 1) :=
         findIdx_shift _ _ _ _
-      have hdata : d = junk ++ c :: (body ++ r.src.rest) := by rw [← hrel.data, hwin]; simp
       have hdd : List.drop junk.length d = c :: (body ++ r.src.rest) := by rw [hdata]; simp
       rw [hdd] at hrel1
       cases hq : findIdx isBoundary new body.length with
       | some k' =>
+        right
         have e1 : findIdx isBoundary (body ++ r.src.rest) 0 = some k' := by
           rw [hsplit, ← List.append_assoc]; exact findIdx_append_some _ (by rw [hbn]; exact hq)
         have hb := findIdx_some_bounds hq
         simp only [e1, hsh, hq, Option.map_some]
-        obtain ⟨r2, hadv2, hrel2, _, _, _⟩ := hrel1.advance (k' + 1) (by rw [hwin1]; simp; omega)
-        refine ⟨r2, ?_, ?_⟩
+        obtain ⟨r2, hadv2, hrel2, _, _, hcap2⟩ := hrel1.advance (k' + 1) (by rw [hwin1]; simp; omega)
+        refine ⟨r2, ?_, ?_, by rw [hcap2, hcap1, hcap0]⟩
         · simp only [hadv2]
           have ht : (c :: (body ++ r.src.rest)).take (1 + k') = (c :: body ++ new).take (k' + 1) := by
             rw [hsplit, show 1 + k' = k' + 1 by omega]
@@ -735,16 +758,24 @@ theorem run_unq (n : Nat) : ∀ (r : Reader) (pos : Nat) (bom : Bom) (d junk : B
         rw [hassoc] at this
         have hlen2 : (body ++ new).length + 1 = (c :: body ++ new).length := by simp
         rw [hlen2] at this
-        cases hfin : findIdx isBoundary (body ++ r.src.rest) 0 with
-        | some kk => simp only [hfin] at this ⊢; simpa using this
-        | none =>
-          simp only [hfin] at this ⊢
-          obtain ⟨r', h1, h2⟩ := this
-          refine ⟨r', h1, ?_⟩
-          have : pos + junk.length + (body.length + 1 + r.src.rest.length) =
-              pos + junk.length + ([] : Bytes).length + ((body ++ new).length + 1 + r1.src.rest.length) := by
-            simp; omega
-          rw [this]; exact h2
+        rcases this with hfa | hok
+        · left
+          rw [hcap1, hcap0] at hfa
+          exact hfa.mono (by rw [hdata]; simp)
+        · right
+          cases hfin : findIdx isBoundary (body ++ r.src.rest) 0 with
+          | some kk =>
+            simp only [hfin] at hok ⊢
+            obtain ⟨r', h1, h2, h3⟩ := hok
+            exact ⟨r', h1, by simpa using h2, by rw [h3, hcap1, hcap0]⟩
+          | none =>
+            simp only [hfin] at hok ⊢
+            obtain ⟨r', h1, h2, h3⟩ := hok
+            refine ⟨r', h1, ?_, by rw [h3, hcap1, hcap0]⟩
+            have : pos + junk.length + (body.length + 1 + r.src.rest.length) =
+                pos + junk.length + ([] : Bytes).length + ((body ++ new).length + 1 + r1.src.rest.length) := by
+              simp; omega
+            rw [this]; exact h2
 
 end Jomini.TextReader
 
@@ -875,18 +906,22 @@ open Jomini Jomini.TextReader.Spec
 /-- the result `res` of a call made at stream position `pos` with BOM state `bom`, the remaining input
 being `d`, is the one the reference step prescribes, and the reader is left in a state related to the
 remaining input. -/
-def Out (res : Res (Option Token)) (pos : Nat) (bom : Bom) (d : Bytes) : Prop :=
+def OutOk (res : Res (Option Token)) (cap : Nat) (pos : Nat) (bom : Bom) (d : Bytes) : Prop :=
   match specStep (pos == 0) bom d with
-  | some (.tok adv t b') => ∃ r', res = .ok r' (some t) ∧ Rel r' (pos + adv) b' (d.drop adv) ∧ adv ≤ d.length
-  | some (.end_ b') => ∃ r', res = .ok r' none ∧ Rel r' (pos + d.length) b' []
+  | some (.tok adv t b') => ∃ r', res = .ok r' (some t) ∧ Rel r' (pos + adv) b' (d.drop adv) ∧ adv ≤ d.length ∧ r'.cap = cap
+  | some (.end_ b') => ∃ r', res = .ok r' none ∧ Rel r' (pos + d.length) b' [] ∧ r'.cap = cap
   | some (.eof a _) => ∃ r', res = .err r' .eof ∧ r'.position = pos + a
   | none => True
+
+/-- … or the call ended in `BufferFull` because the window already filled the buffer (capacity `cap`). -/
+def Out (res : Res (Option Token)) (cap : Nat) (pos : Nat) (bom : Bom) (d : Bytes) : Prop :=
+  FullAlt cap d res ∨ OutOk res cap pos bom d
 
 theorem Skips.nil_eq {pos0 : Bool} {i : Nat} {bom bom' : Bom} (h : Skips pos0 [] i bom bom') : bom' = bom := by
   cases h; rfl
 
-theorem Out_skip {res : Res (Option Token)} {pos : Nat} {pre y : Bytes} {bom bom_s : Bom}
-    (hs : Skips (pos == 0) pre 0 bom bom_s) (h : Out res (pos + pre.length) bom_s y) : Out res pos bom (pre ++ y) := by
+theorem OutOk_skip {res : Res (Option Token)} {cap pos : Nat} {pre y : Bytes} {bom bom_s : Bom}
+    (hs : Skips (pos == 0) pre 0 bom bom_s) (h : OutOk res cap (pos + pre.length) bom_s y) : OutOk res cap pos bom (pre ++ y) := by
   by_cases hne : pre = []
   · subst hne
     have := hs.nil_eq; subst this
@@ -895,7 +930,7 @@ theorem Out_skip {res : Res (Option Token)} {pos : Nat} {pre y : Bytes} {bom bom
     have hp : (pos + pre.length == 0) = false := by
       have : pos + pre.length ≠ 0 := by omega
       simpa using this
-    unfold Out at h ⊢
+    unfold OutOk at h ⊢
     rw [spec_skip hs hne y]
     rw [hp] at h
     cases hsp : specStep false bom_s y with
@@ -905,22 +940,28 @@ theorem Out_skip {res : Res (Option Token)} {pos : Nat} {pre y : Bytes} {bom bom
       cases st with
       | tok adv t b' =>
         simp only [Option.map_some, shiftStep] at h ⊢
-        obtain ⟨r', h1, h2, h3⟩ := h
-        refine ⟨r', h1, ?_, by simp; omega⟩
+        obtain ⟨r', h1, h2, h3, h4⟩ := h
+        refine ⟨r', h1, ?_, by simp; omega, h4⟩
         have e1 : pos + (adv + pre.length) = pos + pre.length + adv := by omega
         have e2 : (pre ++ y).drop (adv + pre.length) = y.drop adv := by
           rw [List.drop_append]; simp
         rw [e1, e2]; exact h2
       | end_ b' =>
         simp only [Option.map_some, shiftStep] at h ⊢
-        obtain ⟨r', h1, h2⟩ := h
-        refine ⟨r', h1, ?_⟩
+        obtain ⟨r', h1, h2, h3⟩ := h
+        refine ⟨r', h1, ?_, h3⟩
         have e1 : pos + (pre ++ y).length = pos + pre.length + y.length := by simp; omega
         rw [e1]; exact h2
       | eof a b' =>
         simp only [Option.map_some, shiftStep] at h ⊢
         obtain ⟨r', h1, h2⟩ := h
         exact ⟨r', h1, by rw [h2]; omega⟩
+
+theorem Out_skip {res : Res (Option Token)} {cap pos : Nat} {pre y : Bytes} {bom bom_s : Bom}
+    (hs : Skips (pos == 0) pre 0 bom bom_s) (h : Out res cap (pos + pre.length) bom_s y) : Out res cap pos bom (pre ++ y) := by
+  rcases h with h | h
+  · left; exact h.mono (by simp)
+  · right; exact OutOk_skip hs h
 
 end Jomini.TextReader
 
@@ -931,7 +972,7 @@ open Jomini Jomini.TextReader.Spec
 def IHyp (n : Nat) : Prop :=
   ∀ (r' : Reader) (pos' : Nat) (bom' : Bom) (d' : Bytes) (fuel' : Nat),
     r'.src.rest.length < n → Rel r' pos' bom' d' → 2 * r'.src.rest.length + 4 ≤ fuel' →
-    Out (run fuel' .fallback r') pos' bom' d'
+    Out (run fuel' .fallback r') r'.cap pos' bom' d'
 
 theorem run_fallback_unfold (f : Nat) (r : Reader) :
     run (f + 1) .fallback r =
@@ -957,11 +998,12 @@ theorem core_rescan {r : Reader} {pos : Nat} {bom bom_s : Bom} {d pre tail : Byt
     (hrel : Rel r pos bom d) (hwin : r.win = pre ++ tail) (hs : Skips (pos == 0) pre 0 bom bom_s)
     (hscan : fbLoop (pos == 0) (pre ++ tail) .top 0 bom = (bom_s, .refill .none tail.length off))
     (hfuel : r.src.rest ≠ [] → 2 * r.src.rest.length + 4 ≤ f + 2) :
-    Out (run (f + 2) .fallback r) pos bom d := by
+    Out (run (f + 2) .fallback r) r.cap pos bom d := by
   have hd : d = pre ++ (tail ++ r.src.rest) := by rw [← hrel.data, hwin]; simp
   have hrelb : Rel { r with bom := bom_s } pos bom_s d := hrel.setBom bom_s
-  obtain ⟨r0, hadv, hrel0, hwin0, hsrc0, _⟩ := hrelb.advance pre.length (by simp [hwin])
+  obtain ⟨r0, hadv, hrel0, hwin0, hsrc0, hcap0⟩ := hrelb.advance pre.length (by simp [hwin])
   have hsrc0 : r0.src = r.src := hsrc0
+  have hcap0 : r0.cap = r.cap := hcap0
   have hscan' : fbLoop (pos == 0) r.win .top 0 bom = (bom_s, .refill .none tail.length off) := by rw [hwin]; exact hscan
   have hwin0' : r0.win = tail := by rw [hwin0]; simp [hwin]
   have e : ({ r with bom := bom_s } : Reader).win.length - tail.length = pre.length := by simp [hwin]
@@ -990,13 +1032,16 @@ theorem core_rescan {r : Reader} {pos : Nat} {bom bom_s : Bom} {d pre tail : Byt
     simp only [e, hadv, hgt, if_false]
     rfl
   rw [hstep]
-  by_cases he : r.src.rest = []
-  · have hrest0 : r0.src.rest = [] := by rw [hsrc0]; exact he
-    obtain ⟨r1, hfill, hrel1, hwin1, hrest1⟩ := hrel0.fill_end hrest0
+  rcases hrel0.fill with ⟨hfill, hc1, hc2⟩ | ⟨he0, r1, hfill, hrel1, hwin1, hrest1, hcap1⟩ | ⟨hne0, r1, k, hfill, hrel1, hk, hwin1, hrest1, hcap1⟩
+  · left
+    rw [hfill]
+    exact ⟨r0, rfl, by rw [← hcap0]; exact hc1, by rw [← hcap0]; exact hc2, by rw [hwin0', hd]; simp; omega⟩
+  · right
+    have he : r.src.rest = [] := by rw [← hsrc0]; exact he0
     rw [hfill]
     simp only
     have hdw : d = pre ++ tail := by rw [hd, he]; simp
-    unfold Out
+    unfold OutOk
     have hspec : specStep (pos == 0) bom d = interp d (bom_s, .refill .none tail.length off) := by
       unfold specStep; rw [hdw, hscan]
     rw [hspec]
@@ -1004,7 +1049,7 @@ theorem core_rescan {r : Reader} {pos : Nat} {bom bom_s : Bom} {d pre tail : Byt
     by_cases ht : tail = []
     · subst ht
       simp only [List.length_nil, beq_self_eq_true, if_true]
-      refine ⟨r1, rfl, ?_⟩
+      refine ⟨r1, rfl, ?_, by rw [hcap1, hcap0]⟩
       have : pos + d.length = pos + pre.length := by rw [hdw]; simp
       rw [this]
       simpa [he] using hrel1
@@ -1019,23 +1064,23 @@ theorem core_rescan {r : Reader} {pos : Nat} {bom bom_s : Bom} {d pre tail : Byt
         simp only
         by_cases h35 : (c == 35) = true
         · simp only [h35, if_true]
-          obtain ⟨r2, hadv2, hrel2, _, _, _⟩ := hrel1.advance (c :: tl).length (by rw [hwin1, hwin0']; exact Nat.le_refl _)
+          obtain ⟨r2, hadv2, hrel2, _, _, hcap2⟩ := hrel1.advance (c :: tl).length (by rw [hwin1, hwin0']; exact Nat.le_refl _)
           simp only [hadv2]
-          refine ⟨r2, rfl, ?_⟩
+          refine ⟨r2, rfl, ?_, by rw [hcap2, hcap1, hcap0]⟩
           have e1 : pos + d.length = pos + pre.length + (c :: tl).length := by rw [hdw]; simp; omega
           have e2 : ((c :: tl) ++ r.src.rest).drop (c :: tl).length = [] := by rw [he]; simp
           rw [e1, ← e2]; exact hrel2
         · simp only [h35, Bool.false_eq_true, if_false]
           refine ⟨r1, rfl, ?_⟩
           rw [hrel1.pos, hdw]; simp
-  · have hrest0 : r0.src.rest ≠ [] := by rw [hsrc0]; exact he
-    obtain ⟨r1, k, hfill, hrel1, hk, hwin1, hrest1⟩ := hrel0.fill_more hrest0
+  · have he : r.src.rest ≠ [] := by rw [← hsrc0]; exact hne0
     rw [hfill]
     simp only
     rw [hsrc0] at hk hrest1
     have hl1 : r1.src.rest.length + (k + 1) = r.src.rest.length := by rw [hrest1]; simp; omega
     have hfuel := hfuel he
     have := IH r1 (pos + pre.length) bom_s (tail ++ r.src.rest) f (by omega) hrel1 (by omega)
+    rw [hcap1, hcap0] at this
     rw [hd]
     exact Out_skip hs this
 
@@ -1096,7 +1141,7 @@ theorem core_token {r : Reader} {pos : Nat} {bom bom_s bomR : Bom} {d pre tl : B
     (hscan : ∀ x, fbLoop (pos == 0) (pre ++ (c :: tl ++ x)) .top 0 bom = (bomR, tokenAt c (tl ++ x) pre.length))
     (hfuel1 : 2 * r.src.rest.length + 3 ≤ f + 2)
     (hfuel : r.src.rest ≠ [] → 2 * r.src.rest.length + 4 ≤ f + 2) :
-    Out (run (f + 2) .fallback r) pos bom d := by
+    Out (run (f + 2) .fallback r) r.cap pos bom d := by
   have hd : d = pre ++ (c :: tl ++ r.src.rest) := by rw [← hrel.data, hwin]; simp
   have hscanW : fbLoop (pos == 0) r.win .top 0 bom = (bomR, tokenAt c tl pre.length) := by
     have := hscan []; simp only [List.append_nil] at this; rw [hwin]; exact this
@@ -1106,13 +1151,14 @@ theorem core_token {r : Reader} {pos : Nat} {bom bom_s bomR : Bom} {d pre tl : B
   cases htok : tokenAt c tl pre.length with
   | bomFill => exact absurd htok (tokenAt_not_bomFill _ _ _)
   | tok adv t =>
+    right
     have hstab := tokenAt_stable r.src.rest htok
     have hle := tokenAt_adv_le htok
-    unfold Out specStep
+    unfold OutOk specStep
     rw [hscanD, hstab]
     simp only [interp]
-    obtain ⟨r', hadv, hrel', _, _, _⟩ := (hrel.setBom bomR).advance adv (by simp [hwin]; omega)
-    refine ⟨r', ?_, hrel', by omega⟩
+    obtain ⟨r', hadv, hrel', _, _, hcap'⟩ := (hrel.setBom bomR).advance adv (by simp [hwin]; omega)
+    refine ⟨r', ?_, hrel', by omega, hcap'⟩
     rw [run_fallback_unfold, hrel.pos, hrel.bom, hscanW, htok]
     simp only [hadv]
   | refill st carry off =>
@@ -1137,7 +1183,10 @@ theorem core_token {r : Reader} {pos : Nat} {bom bom_s bomR : Bom} {d pre tl : B
       have hrun : run (f + 2) .fallback r = run (f + 1) (.refill .quote tl.length off) { r with bom := bomR } := by
         rw [run_fallback_unfold, hrel.pos, hrel.bom, hscanW, htok]
       rw [hrun]
-      unfold Out specStep
+      rcases hq with hfa | hq
+      · left; exact hfa
+      right
+      unfold OutOk specStep
       rw [hscanD, tokenAt_quote]
       unfold quoteTok
       simp only at hq
@@ -1146,9 +1195,9 @@ theorem core_token {r : Reader} {pos : Nat} {bom bom_s bomR : Bom} {d pre tl : B
         have e := quoteScan_closed hqs
         rw [e] at hq
         simp only [interp]
-        obtain ⟨r', h1, h2⟩ := hq
+        obtain ⟨r', h1, h2, h3⟩ := hq
         have hbn := quoteEnd_bounds e
-        refine ⟨r', h1, ?_, by rw [hdlen]; simp at hbn; omega⟩
+        refine ⟨r', h1, ?_, by rw [hdlen]; simp at hbn; omega, h3⟩
         have e1 : pos + (pre.length + 1 + n + 1) = pos + (pre ++ [34]).length + (n + 1) := by simp; omega
         have e2 : d.drop (pre.length + 1 + n + 1) = (tl ++ r.src.rest).drop (n + 1) := by
           rw [hd, show pre.length + 1 + n + 1 = pre.length + ((n + 1) + 1) by omega, List.drop_append]
@@ -1169,7 +1218,10 @@ theorem core_token {r : Reader} {pos : Nat} {bom bom_s bomR : Bom} {d pre tl : B
           run (f + 1) (.refill .unquoted (tl.length + 1) (tl.length + 1)) { r with bom := bomR } := by
         rw [run_fallback_unfold, hrel.pos, hrel.bom, hscanW, htok]
       rw [hrun]
-      unfold Out specStep
+      rcases hq with hfa | hq
+      · left; exact hfa
+      right
+      unfold OutOk specStep
       rw [hscanD, hunq]
       unfold unqTok
       simp only at hq
@@ -1177,9 +1229,9 @@ theorem core_token {r : Reader} {pos : Nat} {bom bom_s bomR : Bom} {d pre tl : B
       | some k =>
         rw [hfs] at hq
         simp only [interp]
-        obtain ⟨r', h1, h2⟩ := hq
+        obtain ⟨r', h1, h2, h3⟩ := hq
         have hbn := findIdx_some_bounds hfs
-        refine ⟨r', h1, ?_, by rw [hdlen]; simp at hbn; omega⟩
+        refine ⟨r', h1, ?_, by rw [hdlen]; simp at hbn; omega, h3⟩
         have e1 : pos + (pre.length + 1 + k) = pos + pre.length + (1 + k) := by omega
         have e2 : d.drop (pre.length + 1 + k) = (c :: (tl ++ r.src.rest)).drop (1 + k) := by
           rw [hd, show pre.length + 1 + k = pre.length + (1 + k) by omega, List.drop_append]
@@ -1188,14 +1240,14 @@ theorem core_token {r : Reader} {pos : Nat} {bom bom_s bomR : Bom} {d pre tl : B
       | none =>
         rw [hfs] at hq
         simp only [interp]
-        obtain ⟨r', h1, h2⟩ := hq
+        obtain ⟨r', h1, h2, h3⟩ := hq
         have e0 : d.drop (d.length - ((tl ++ r.src.rest).length + 1)) = c :: (tl ++ r.src.rest) := by
           rw [hdlen, hd]
           have : pre.length + 1 + tl.length + r.src.rest.length - ((tl ++ r.src.rest).length + 1) = pre.length := by
             simp; omega
           rw [this]; simp
         rw [e0]
-        refine ⟨r', h1, ?_, Nat.le_refl _⟩
+        refine ⟨r', h1, ?_, Nat.le_refl _, h3⟩
         have e1 : pos + d.length = pos + pre.length + (tl.length + 1 + r.src.rest.length) := by rw [hdlen]; omega
         rw [e1, List.drop_length]; exact h2
 
@@ -1204,12 +1256,13 @@ end Jomini.TextReader
 namespace Jomini.TextReader
 open Jomini Jomini.TextReader.Spec
 
-/-- **one call of `next_opt_fallback`, any schedule**: whatever the window currently holds and however the
-undelivered bytes arrive, the call returns what the reference step prescribes for the whole remaining input
-(same token, same clean end, same `Eof`), and leaves the reader related to the remaining input. -/
+/-- **one call of `next_opt_fallback`, any schedule, any buffer capacity**: whatever the window currently holds and
+however the undelivered bytes arrive, the call either ends in `BufferFull` (the window already filled the buffer), or it
+returns what the reference step prescribes for the whole remaining input (same token, same clean end, same `Eof`), and
+leaves the reader related to the remaining input. -/
 theorem run_fallback_spec : ∀ (n : Nat) (r : Reader) (pos : Nat) (bom : Bom) (d : Bytes) (fuel : Nat),
     r.src.rest.length = n → Rel r pos bom d → 2 * r.src.rest.length + 4 ≤ fuel →
-    Out (run fuel .fallback r) pos bom d := by
+    Out (run fuel .fallback r) r.cap pos bom d := by
   intro n
   induction n using Nat.strongRecOn with
   | _ n ih =>
@@ -1236,15 +1289,25 @@ theorem run_fallback_spec : ∀ (n : Nat) (r : Reader) (pos : Nat) (bom : Bom) (
       subst hbs hbu
       simp only [List.nil_append] at hw
       have hscanW : fbLoop (pos == 0) r.win .top 0 .unknown = (.unknown, .bomFill) := by rw [hw]; exact h1
-      by_cases he : r.src.rest = []
-      · obtain ⟨r1, hfill, hrel1, hwin1, hrest1⟩ := hrel.fill_end he
-        have hrun : run (f + 2) .fallback r = run (f + 1) .fallback { r1 with bom := .notPresent } := by
-          rw [run_fallback_unfold, hrel.pos, hrel.bom, hscanW]
-          have : ({ r with bom := Bom.unknown } : Reader) = r := by
-            have hb := hrel.bom
-            cases r with
-            | mk cap win consumed prior src bom => simp only at hb; subst hb; rfl
-          simp only [this, hfill]
+      have heta : ({ r with bom := Bom.unknown } : Reader) = r := by
+        have hb := hrel.bom
+        cases r with
+        | mk cap win consumed prior src bom => simp only at hb; subst hb; rfl
+      have hstep : run (f + 2) .fallback r =
+          match fillBuf r with
+          | (r', .ok 0) => run (f + 1) .fallback { r' with bom := .notPresent }
+          | (r', .ok _) => run (f + 1) .fallback r'
+          | (r', .full) => .err r' .full
+          | (r', .io) => .err r' .io := by
+        rw [run_fallback_unfold, hrel.pos, hrel.bom, hscanW]
+        simp only [heta]
+      rw [hstep]
+      rcases hrel.fill with ⟨hfill, hc1, hc2⟩ | ⟨he, r1, hfill, hrel1, hwin1, hrest1, hcap1⟩ | ⟨he, r1, k, hfill, hrel1, hk, hwin1, hrest1, hcap1⟩
+      · left
+        rw [hfill]
+        exact ⟨r, rfl, hc1, hc2, hrel.win_le⟩
+      · rw [hfill]
+        simp only
         obtain ⟨f', rfl⟩ : ∃ f', f = f' + 1 := ⟨f - 1, by omega⟩
         have hrelN : Rel { r1 with bom := .notPresent } pos .notPresent d := hrel1.setBom .notPresent
         have hdw : d = 0xef :: tl := by rw [← hrel.data, he, hw]; simp
@@ -1256,9 +1319,12 @@ theorem run_fallback_spec : ∀ (n : Nat) (r : Reader) (pos : Nat) (bom : Bom) (
           (by decide) (by intro h; simp at h)
           (by intro x; simpa [bomAfter] using fbLoop_token (r := tl ++ x) (by decide) (by decide) hnbc)
           (by simp [hrest1]; omega) (by intro h; simp [hrest1] at h)
-        rw [hrun]
+        have hcapN : ({ r1 with bom := Bom.notPresent } : Reader).cap = r.cap := hcap1
+        have hf2 : f' + 1 + 1 = f' + 2 := rfl
+        rw [hf2]
+        generalize run (f' + 2) .fallback { r1 with bom := Bom.notPresent } = res at hout ⊢
+        rw [hcapN] at hout
         -- with fewer than three bytes in all, the reference step is the one with the BOM ruled out
-        unfold Out at hout ⊢
         have hspec : specStep (pos == 0) .unknown d = specStep (pos == 0) .notPresent d := by
           have hfN := fbLoop_token (pos0 := (pos == 0)) (r := tl) (j := 0) (by decide) (by decide) hnbc
           simp only [List.length_nil] at h1
@@ -1269,18 +1335,15 @@ theorem run_fallback_spec : ∀ (n : Nat) (r : Reader) (pos : Nat) (bom : Bom) (
           | bomFill => exact absurd htk (tokenAt_not_bomFill _ _ _)
           | tok _ _ => rfl
           | refill _ _ _ => rfl
-        rw [hspec]; exact hout
-      · obtain ⟨r1, k, hfill, hrel1, hk, hwin1, hrest1⟩ := hrel.fill_more he
-        have hrun : run (f + 2) .fallback r = run (f + 1) .fallback r1 := by
-          rw [run_fallback_unfold, hrel.pos, hrel.bom, hscanW]
-          have : ({ r with bom := Bom.unknown } : Reader) = r := by
-            have hb := hrel.bom
-            cases r with
-            | mk cap win consumed prior src bom => simp only at hb; subst hb; rfl
-          simp only [this, hfill]
-        rw [hrun]
+        rcases hout with hfa | hok
+        · left; exact hfa
+        · right; unfold OutOk at hok ⊢; rw [hspec]; exact hok
+      · rw [hfill]
+        simp only
         have hl1 : r1.src.rest.length + (k + 1) = r.src.rest.length := by rw [hrest1]; simp; omega
-        exact IH r1 pos .unknown d (f + 1) (by omega) hrel1 (by omega)
+        have := IH r1 pos .unknown d (f + 1) (by omega) hrel1 (by omega)
+        rw [hcap1] at this
+        exact this
 
 end Jomini.TextReader
 
@@ -1361,21 +1424,49 @@ theorem specStep_isSome (pos0 : Bool) (bom : Bom) (d : Bytes) : (specStep pos0 b
 theorem Rel.rest_le {r : Reader} {pos : Nat} {bom : Bom} {d : Bytes} (h : Rel r pos bom d) :
     r.src.rest.length ≤ d.length := by rw [← h.data]; simp
 
-/-- two readers over the same remaining input — any window contents, any fault-free schedules, a slice reader
-or a large enough buffer — produce the same tokens and the same terminal outcome, and at a clean end both are
-at the end of the input. -/
-theorem lexFb_agree (n : Nat) : ∀ (r1 r2 : Reader) (pos : Nat) (bom : Bom) (d : Bytes) (f1 f2 : Nat) (acc : List Token),
-    Rel r1 pos bom d → Rel r2 pos bom d → 2 * d.length + 4 ≤ f1 → 2 * d.length + 4 ≤ f2 →
-    (lexFb f1 n r1 acc).toks = (lexFb f2 n r2 acc).toks ∧ (lexFb f1 n r1 acc).out = (lexFb f2 n r2 acc).out ∧
-    ((lexFb f1 n r1 acc).out = .end_ →
-      (lexFb f1 n r1 acc).final.position = pos + d.length ∧ (lexFb f2 n r2 acc).final.position = pos + d.length) := by
+theorem lexFb_toks_prefix (fuel : Nat) : ∀ (n : Nat) (r : Reader) (acc : List Token),
+    acc.reverse <+: (lexFb fuel n r acc).toks := by
+  intro n
   induction n with
-  | zero => intro r1 r2 pos bom d f1 f2 acc _ _ _ _; simp [lexFb]
+  | zero => intro r acc; simp [lexFb]
   | succ n ih =>
-    intro r1 r2 pos bom d f1 f2 acc h1 h2 hf1 hf2
+    intro r acc
+    rw [lexFb]
+    split
+    · rename_i r' t _
+      have := ih r' (t :: acc)
+      simp only [List.reverse_cons] at this
+      exact List.IsPrefix.trans (List.prefix_append _ _) this
+    all_goals simp
+
+/-- the streaming reader `r1` against a slice reader `r2` over the same remaining input: same tokens, same terminal
+outcome and final position — or the streaming run ends in `BufferFull` having produced a prefix of the slice reader's
+tokens (and then the window really filled the buffer). -/
+theorem lexFb_vs_slice (n : Nat) : ∀ (r1 r2 : Reader) (pos : Nat) (bom : Bom) (d : Bytes) (f1 f2 : Nat) (acc : List Token),
+    Rel r1 pos bom d → Rel r2 pos bom d → r2.cap = 0 → 2 * d.length + 4 ≤ f1 → 2 * d.length + 4 ≤ f2 →
+    ((lexFb f1 n r1 acc).out = .err .full ∧ (lexFb f1 n r1 acc).toks <+: (lexFb f2 n r2 acc).toks ∧
+      r1.cap ≠ 0 ∧ r1.cap ≤ d.length) ∨
+    ((lexFb f1 n r1 acc).toks = (lexFb f2 n r2 acc).toks ∧ (lexFb f1 n r1 acc).out = (lexFb f2 n r2 acc).out ∧
+     ((lexFb f1 n r1 acc).out = .end_ →
+      (lexFb f1 n r1 acc).final.position = pos + d.length ∧ (lexFb f2 n r2 acc).final.position = pos + d.length)) := by
+  induction n with
+  | zero => intro r1 r2 pos bom d f1 f2 acc _ _ _ _ _; right; simp [lexFb]
+  | succ n ih =>
+    intro r1 r2 pos bom d f1 f2 acc h1 h2 hz hf1 hf2
     have o1 := run_fallback_spec _ r1 pos bom d f1 rfl h1 (by have := h1.rest_le; omega)
     have o2 := run_fallback_spec _ r2 pos bom d f2 rfl h2 (by have := h2.rest_le; omega)
-    unfold Out at o1 o2
+    -- the slice reader is never full
+    have o2 : OutOk (run f2 .fallback r2) r2.cap pos bom d := by
+      rcases o2 with ⟨_, _, hne, _⟩ | h
+      · exact absurd hz hne
+      · exact h
+    rcases o1 with ⟨r', hfull, hne, hle, hwd⟩ | o1
+    · left
+      have hl : (lexFb f1 (n + 1) r1 acc).toks = acc.reverse ∧ (lexFb f1 (n + 1) r1 acc).out = .err .full := by
+        simp [lexFb, nextOptFallback, hfull]
+      refine ⟨hl.2, ?_, hne, by omega⟩
+      rw [hl.1]; exact lexFb_toks_prefix _ _ _ _
+    unfold OutOk at o1 o2
     have hsome := specStep_isSome (pos == 0) bom d
     cases hsp : specStep (pos == 0) bom d with
     | none => rw [hsp] at hsome; simp at hsome
@@ -1383,24 +1474,29 @@ theorem lexFb_agree (n : Nat) : ∀ (r1 r2 : Reader) (pos : Nat) (bom : Bom) (d 
       rw [hsp] at o1 o2
       cases st with
       | tok adv t b' =>
-        obtain ⟨r1', e1, hr1, hle⟩ := o1
-        obtain ⟨r2', e2, hr2, _⟩ := o2
+        obtain ⟨r1', e1, hr1, hle, hc1⟩ := o1
+        obtain ⟨r2', e2, hr2, _, hc2⟩ := o2
         simp only [lexFb, nextOptFallback, e1, e2]
         have hl : (d.drop adv).length ≤ d.length := by simp
-        have := ih r1' r2' (pos + adv) b' (d.drop adv) f1 f2 (t :: acc) hr1 hr2 (by omega) (by omega)
-        refine ⟨this.1, this.2.1, ?_⟩
-        intro he
-        have h3 := this.2.2 he
-        have e : pos + adv + (d.drop adv).length = pos + d.length := by simp; omega
-        rw [← e]; exact h3
+        have := ih r1' r2' (pos + adv) b' (d.drop adv) f1 f2 (t :: acc) hr1 hr2 (by rw [hc2]; exact hz) (by omega) (by omega)
+        rcases this with ⟨ha, hb, hc, hd⟩ | this
+        · left; exact ⟨ha, hb, by rw [← hc1]; exact hc, by rw [← hc1]; omega⟩
+        · right
+          refine ⟨this.1, this.2.1, ?_⟩
+          intro he
+          have h3 := this.2.2 he
+          have e : pos + adv + (d.drop adv).length = pos + d.length := by simp; omega
+          rw [← e]; exact h3
       | end_ b' =>
-        obtain ⟨r1', e1, hr1⟩ := o1
-        obtain ⟨r2', e2, hr2⟩ := o2
+        obtain ⟨r1', e1, hr1, _⟩ := o1
+        obtain ⟨r2', e2, hr2, _⟩ := o2
+        right
         simp only [lexFb, nextOptFallback, e1, e2]
         exact ⟨by simp, by simp, fun _ => ⟨hr1.pos, hr2.pos⟩⟩
       | eof a b' =>
         obtain ⟨r1', e1, _⟩ := o1
         obtain ⟨r2', e2, _⟩ := o2
+        right
         simp only [lexFb, nextOptFallback, e1, e2]
         exact ⟨by simp, by simp, fun h => by simp at h⟩
 
